@@ -1,5 +1,6 @@
 import RosuModel.Lemmas.DecodeLineNum
 import RosuModel.Lemmas.DecodeLineDriver
+import RosuModel.Lemmas.DecodeLineCurve
 
 /-!
 What the accepted lines guarantee about the numeric fields they push (hit objects, timing points),
@@ -9,10 +10,13 @@ namespace Rosu.DecodeLine
 open Rosu.Decode
 
 /-- the slider fields the parser bounds: at most 8999 repeats, `repeats + 2` node sounds, a pixel
-length of magnitude at most `MAX_COORDINATE_VALUE` -/
+length of magnitude at most `MAX_COORDINATE_VALUE`, at least one control point -/
 def KindOK : Kind → Prop
-  | .slider r len ns _ => r ≤ 8999 ∧ ns.length = r + 2 ∧ ∀ l, len = some l → F64.mag l ≤ maxCoord64
-  | _ => True
+  | .slider r len ns cps =>
+    r ≤ 8999 ∧ ns.length = r + 2 ∧ (∀ l, len = some l → F64.mag l ≤ maxCoord64) ∧ cps ≠ []
+  | .spinner d => F64.isNaN d = false ∧ 0 ≤ F64.num d
+  | .hold d => F64.isNaN d = false
+  | .circle => True
 
 theorem nodeSounds_length (sound repeats : Nat) (s : Option Str) :
     (nodeSounds sound repeats s).length = repeats + 2 := by
@@ -56,9 +60,11 @@ theorem parseSlider_ok (curve : List CP) (x y : Int) (sound : Nat) (ps rs : Str)
   | ok reps =>
     rw [hreps] at h
     simp only [] at h ⊢
-    by_cases h9 : reps > 9000
+    by_cases h9 : reps > repeatCap
     · rw [if_pos h9] at h; cases h
     · rw [if_neg h9] at h ⊢
+      have hcap : repeatCap = 9000 := rfl
+      rw [hcap] at h9
       unfold repeatsOf at h ⊢
       by_cases hu : reps - 1 < -2147483648
       · rw [if_pos hu] at h; cases h
@@ -84,7 +90,9 @@ theorem parseSlider_ok (curve : List CP) (x y : Int) (sound : Nat) (ps rs : Str)
                 injection h with h
                 injection h with hk hs
                 subst hk
-                refine ⟨⟨?_, nodeSounds_length _ _ _, sliderLen_ok _ _ hlen⟩, trivial⟩
+                have hne := convertPathStr_ok_ne_nil curve ps x y (by rw [hcp])
+                rw [hcp] at hne
+                refine ⟨⟨?_, nodeSounds_length _ _ _, sliderLen_ok _ _ hlen, hne⟩, trivial⟩
                 split <;> omega
 
 theorem parseKind_ok (curve : List CP) (x y : Int) (time : Nat) (ty : Int) (sound : Nat)
@@ -129,7 +137,8 @@ theorem parseKind_ok (curve : List CP) (x y : Int) (time : Nat) (ty : Int) (soun
               injection h with h
               injection h with hk _
               subst hk
-              trivial
+              have hm := max0_nonneg (F64.sub t time) (sub64_not_nan _ _)
+              exact nz64_props _ hm.1 hm.2
       · rw [if_neg h8] at h
         by_cases h128 : hasFlag ty 128 = true
         · rw [if_pos h128] at h
@@ -140,7 +149,7 @@ theorem parseKind_ok (curve : List CP) (x y : Int) (time : Nat) (ty : Int) (soun
             injection h with h
             injection h with hk _
             subst hk
-            trivial
+            exact nz64_not_nan _ (sub64_not_nan _ _)
           | some s =>
             rw [hf] at h
             simp only [] at h
@@ -162,7 +171,7 @@ theorem parseKind_ok (curve : List CP) (x y : Int) (time : Nat) (ty : Int) (soun
                   injection h with h
                   injection h with hk _
                   subst hk
-                  trivial
+                  exact nz64_not_nan _ (sub64_not_nan _ _)
         · rw [if_neg h128] at h; cases h
 
 /-- (c) what an accepted `[HitObjects]` line pushes: one object with a finite start time of magnitude
@@ -170,7 +179,8 @@ at most `MAX_PARSE_VALUE` and bounded slider fields, and its one sound. -/
 theorem parseHitObject_ok_fields (st : HState) (line : Str) (h : (parseHitObject st line).2 = .ok ()) :
     ∃ o s, (parseHitObject st line).1.objects = st.objects ++ [o] ∧
       (parseHitObject st line).1.sounds = st.sounds ++ [s] ∧
-      F64.mag o.time ≤ maxParse64 ∧ F64.isFinite o.time = true ∧ KindOK o.kind := by
+      F64.mag o.time ≤ maxParse64 ∧ F64.isFinite o.time = true ∧ KindOK o.kind ∧
+      (-131072 ≤ o.x ∧ o.x ≤ 131072) ∧ (-131072 ≤ o.y ∧ o.y ≤ 131072) := by
   unfold parseHitObject at h ⊢
   match hsp : splitC ',' (trimComment line), h with
   | [], h => cases h
@@ -215,7 +225,7 @@ theorem parseHitObject_ok_fields (st : HState) (line : Str) (h : (parseHitObject
                   have hb := parseF64_bounds ts time ht
                   have hko := parseKind_ok st.curve x y time ty (sn % 256).toNat rest kind snd
                     (by rw [hpk])
-                  exact ⟨_, _, rfl, rfl, hb.1, hb.2, hko⟩
+                  exact ⟨_, _, rfl, rfl, hb.1, hb.2, hko, posOf_bound xs x hx, posOf_bound ys y hy⟩
 
 /-- (c) what an accepted `[TimingPoints]` line hands to the pending-point logic: a finite time of
 magnitude at most `MAX_PARSE_VALUE`; a slider velocity in `[0.1, 10]`; a scroll speed that is `1.0`
@@ -283,6 +293,77 @@ theorem parseTimingLine_ok (scroll : Bool) (line : Str) (ln : TLine)
                       · rfl
                       · rw [htc, hnan] at hn; exact absurd rfl hn
                     exact clamp_bounds F64 beatLen c64_6 c64_60000 this (by decide) (by decide) (by decide)
+
+/-- (c) a pushed break: finite start with `|t| ≤ MAX_PARSE_VALUE`, an end that is not NaN and not
+before the start -/
+theorem parseEvent_ok (line : Str) (st en : Nat) (h : parseEvent line = .ok (some (st, en))) :
+    F64.mag st ≤ maxParse64 ∧ F64.isFinite st = true ∧ F64.isNaN en = false ∧ F64.num st ≤ F64.num en := by
+  unfold parseEvent at h
+  match hs : splitC ',' (trimComment line), h with
+  | [], h => cases h
+  | ty :: rest, h =>
+    simp only [] at h
+    match het : eventType ty, h with
+    | none, h => cases h
+    | some false, h => cases h
+    | some true, h =>
+      simp only [] at h
+      match rest, h with
+      | [], h => cases h
+      | [_], h => cases h
+      | ss :: es :: _, h =>
+        simp only [] at h
+        cases hp : parseF64 ss with
+        | error e => rw [hp] at h; cases h
+        | ok s0 =>
+          rw [hp] at h
+          simp only [] at h
+          cases hq : parseF64 es with
+          | error e => rw [hq] at h; cases h
+          | ok e0 =>
+            rw [hq] at h
+            injection h with h
+            injection h with h
+            injection h with h1 h2
+            subst h1 h2
+            have bs := parseF64_bounds ss s0 hp
+            have be := parseF64_bounds es e0 hq
+            have ns : F64.isNaN s0 = false := (parseLim_ok F64 ss maxParse64 s0 hp).1
+            have ne : F64.isNaN e0 = false := (parseLim_ok F64 es maxParse64 e0 hq).1
+            refine ⟨bs.1, bs.2, ?_, ?_⟩
+            · apply nz64_not_nan
+              unfold Fmt.max
+              split
+              · exact ne
+              · exact ns
+            · unfold nz64 Fmt.max
+              by_cases hl : F64.lt s0 e0 = true
+              · rw [if_pos hl]
+                have hle : F64.num s0 ≤ F64.num e0 := by
+                  unfold Fmt.lt at hl
+                  simp only [ns, ne, Bool.not_false, Bool.true_and, decide_eq_true_eq] at hl
+                  omega
+                split
+                · rename_i hz
+                  unfold Fmt.isZero at hz
+                  have : F64.num e0 = 0 := by
+                    unfold Fmt.num
+                    have hz' : F64.mag e0 = 0 := by simpa using hz
+                    rw [hz']; split <;> rfl
+                  have h0 : F64.num 0 = 0 := by decide
+                  omega
+                · exact hle
+              · rw [if_neg hl]
+                split
+                · rename_i hz
+                  unfold Fmt.isZero at hz
+                  have : F64.num s0 = 0 := by
+                    unfold Fmt.num
+                    have hz' : F64.mag s0 = 0 := by simpa using hz
+                    rw [hz']; split <;> rfl
+                  have h0 : F64.num 0 = 0 := by decide
+                  omega
+                · exact Int.le_refl _
 
 /-! ## the `curve_points` scratch buffer -/
 
